@@ -133,12 +133,37 @@ def judge(rec, prog):
     return "checked", errs, stats
 
 
+def large_program(nstmts, rnd):
+    """A program whose code is far larger than anything the generators produce (about 6 bytes per filler statement):
+    procedures that are never called push `far`, `twice` and `main` to byte offsets beyond 2^16, 200000, 2^18 or 2^19;
+    the traced run only executes near, far, twice and main."""
+    nfill = rnd.randrange(1, 5)
+    per = nstmts // nfill
+    fill_stmt = ("ass", ("var", "g"), ("bin", "-", ("bin", "+", ("var", "g"), ("num", 70001)), ("var", "h")))
+    procs = [{"kind": "proc", "name": "near", "formals": [], "locals": [], "body": ("sysst", 1, [("chr", ord("n")), ("num", 0)])}]
+    for k in range(nfill):
+        procs.append({"kind": "proc", "name": "fill%d" % k, "formals": [], "locals": [], "body": ("seq", [fill_stmt] * per)})
+    tail = [{"kind": "proc", "name": "far", "formals": [], "locals": [], "body": ("sysst", 1, [("chr", ord("f")), ("num", 0)])},
+            {"kind": "func", "name": "twice", "formals": [("val", "x")], "locals": [], "body": ("ret", ("bin", "+", ("var", "x"), ("var", "x")))},
+            {"kind": "proc", "name": "main", "formals": [], "locals": [],
+             "body": ("seq", [("callst", "near", []), ("callst", "far", []), ("callst", "near", []),
+                              ("sysst", 0, [("call", "twice", [("num", rnd.randrange(1, 100))])])])}]
+    rnd.shuffle(tail)
+    return {"globals": [("var", "g"), ("var", "h")], "procs": procs + tail}
+
+
 def worker(job):
     wseed, n, exe = job
     rnd = random.Random(wseed)
     items = []
     progs = []
-    for i in range(n):
+    if isinstance(n, list):
+        for k in n:
+            prog = large_program(k, rnd)
+            items.append(("large:%d" % k, prog, b"", {}))
+            progs.append(prog)
+        n = len(items)
+    for i in range(n if not items else 0):
         sub = rnd.randrange(1 << 62)
         prog, console, files = xgen.random_program(random.Random(sub))
         items.append(("random:%d" % sub, prog, console, files))
@@ -179,6 +204,9 @@ def run(tier, replay=None):
     total = 3000 if tier == "quick" else 100000
     W = common.NCPU * (1 if tier == "quick" else 6)
     jobs = [(common.seed() * 424243 + w, total // W + 1, exe) for w in range(W)]
+    sizes = [11500, 34000, 45000] if tier == "quick" else [3000, 10500, 11000, 11500, 20000, 32000, 33000, 34000, 36000, 43000, 44000, 45000, 60000, 86000, 88000, 100000]
+    jobs += [(common.seed() * 77 + k, [k], exe) for k in sizes]
+    v.cov["large_programs_filler_statements"] = sizes
     outs = common.pmap(worker, jobs)
     for o in outs:
         v.cov["evaluations"] += o["checked"]
